@@ -25,7 +25,7 @@ DONE = {
   'fixed-column readers are modelled on top of the contact model (C05/C14) and the superposition model (C13), with the rotation kernel as a '
   'recorded oracle (C06); reader columns, zone format, contact test and get_rmsd shape are regenerated. Coq proves: the readers read the wwPDB '
   'columns; the SQL route pairs by identity for any record order; missing atoms are left out; the fast route pairs by identity under the '
-  'same-relative-order condition and is refuted without it (F6); compute_izone equals the zone of the definition for every two-chain reference and cutoff; the reported value is the kernel residual on the centred fitted atoms; '
+  'same-relative-order condition and is refuted without it (F6); compute_izone equals the zone of the definition for every two-chain reference and cutoff; the reported value is the kernel residual on the centred fitted atoms, hence minimal over all rigid motions once the kernel is optimal among rotations (C06); '
   'identical structures score 0. Harness: implementation vs extracted model (exact mean squared deviation from the recorded rotation) and vs the '
   'specification (zone + identity pairs from Coq, minimum evaluated by an independent Kabsch) on generated complexes, 4 routines x 2 methods.',
   'hand-written Gallina pipeline model with oracle rotation + Coq theorems + regenerated readers + differential check',
@@ -43,12 +43,13 @@ DONE = {
  'C09': ('§5.C09',
   'Zone files: the line format is regenerated from _write_zone; Coq proves that for every one-character chain identifier other than blank and - and '
   'every integer residue number the written line is read back as exactly (chain, number), and that a whole zone file is read back as exactly the '
-  'in-memory zone (so the three zone sources are interchangeable), and that the writer publishes atomically. Route agreement: on generated pairs '
+  'in-memory zone (so the three zone sources are interchangeable), and that the writer publishes atomically; and that on structures listing the same '
+  'atoms in the same order the fast and the SQL i-RMSD route use the same coordinate lists and report the same value for the same rotation. Route agreement in general: on generated pairs '
   '(incl. equal-sized chains, rank-differing chains, incomplete decoys, negative numbers) all call forms of each measure — {fast, SQL} x {svd, '
   'quaternion} x {no zone file, written, read back}, and both Fnat routes — are run and compared pairwise; zone files written by the library are '
   'compared with the model text and read back through both consumers.',
   'regenerated zone format + Coq round-trip theorems (string lemmas, induction over the zone) + exhaustive call-form comparison on generated pairs',
-  'fast = SQL and svd = quaternion are corollaries of C07 and C06 theorems, decided per run by execution rather than restated as one theorem. '
+  'PARTIAL: fast = SQL is a theorem for the i-RMSD on aligned structures only; otherwise fast = SQL and svd = quaternion follow from C07 and C06 theorems and are decided per run by execution. '
   'Known finding F5 (the two L-RMSD routes choose the long chain differently on ambiguous sizes). Print Assumptions: closed under the global context.'),
  'C10': ('§5.C10',
   'Rodrigues matrix, Euler matrices and product order, rotate, translation, the database wrappers and the random axis/angle are regenerated once against a number '
@@ -83,8 +84,11 @@ DONE = {
   'fields, residue-number shift, added hydrogens, three permutation levels x both enforcement settings); the C07 models are re-tied on a variant.',
   'Coq invariance theorems on the models (congruence, ring identities) + metamorphic differential check of the real routines',
   'Also proved: the residual left on a rigidly displaced copy m.P+t by the rotation r.m^T equals the residual left on P by r (rotation candidates '
-  'of the two problems correspond one to one, so the minimum RMSD is the same). PARTIAL: renumbering, hydrogens and permutations are decided by the '
-  'metamorphic correspondence only. '
+  'of the two problems correspond one to one, so the minimum RMSD is the same); under any strictly increasing renumbering of the residues (+k) contact '
+  'atoms, pair map, residue extension and clash count are unchanged, residue pairs are mapped key by key and Fnat is unchanged; with hydrogens excluded '
+  '(clash count, Fnat) the result is that of the structure without its hydrogen atoms, and row labels are immaterial (any strictly increasing relabelling), so '
+  'hydrogen records inserted anywhere change neither. PARTIAL: the RMSD values '
+  'under renumbering / added hydrogens, and permutations are decided by the metamorphic correspondence only. '
   'Known finding F6 (permuted decoy + fast RMSD routes without enforcement). Print Assumptions: closed under the global context.'),
  'C12': ('§5.C12',
   'CAPRI cascade and DockQ formula are regenerated from the source by the translator on every run; theorems (total, equal to the '
@@ -136,7 +140,8 @@ DONE = {
  'C15': ('§5.C15',
   'Every derivation in the library (sub-selection call, interface(db), many2sql([db,...]), many2sql call) rebuilds the new object from the '
   'exported text of the selected rows; the model is snapshot = parse(export(rows)) over the regenerated C01/C02 leaf functions. Coq proves that '
-  'the snapshot holds one row per selected row, in order, each depending only on its own source row, and (on the functional store) that for '
+  'the snapshot holds one row per selected row, in order, each depending only on its own source row; that it is faithful (through the C02 round-trip '
+  'theorems: every derived row equals its source row in the integer/text attributes and at PDB text precision in the numeric ones, approx_row); and (on the functional store) that for '
   'every history an object is changed only by operations addressed to it. The tie to the code is the history correspondence: after every step of '
   'generated histories over up to 6 live objects, get(*) of every live object is compared with its own reference table, and every derived table with '
   'the extracted model (exactly) and with the text-precision specification approx_row.',
